@@ -155,6 +155,7 @@ static void run_wsplit(const Case& c) {
 
 struct Scan {
   bool balanced = true;
+  size_t max_depth = 0; // deepest nesting of brackets / quoted strings reached
   vector<size_t> top; // offsets of delimiters outside every bracket / quoted string
 };
 
@@ -188,6 +189,7 @@ static Scan scan_context(const string& s, char delim) {
       case '"': open.push_back(ch); continue;
       default: break;
     }
+    r.max_depth = std::max(r.max_depth, open.size());
     if (open.empty() && ch == delim) r.top.push_back(i);
   }
   r.balanced = open.empty();
@@ -232,6 +234,7 @@ static void run_split_context(const Case& c) {
   }
   bool meta = s.find_first_of("()[]{}<>'\"\\") != string::npos;
   if ((meta || !sc.top.empty()) && two_different_bytes(s)) ctx().nontrivial_case();
+  ctx().cls(sc.max_depth <= 8 ? "split_context:depth<=8" : (sc.max_depth <= 32 ? "split_context:depth<=32" : (sc.max_depth <= 128 ? "split_context:depth<=128" : "split_context:depth>128")));
   ctx().cls(!sc.balanced ? "split_context:unbalanced" : (sc.top.empty() ? "split_context:balanced-no-top-delimiter" : "split_context:balanced-with-top-delimiter"));
 }
 
@@ -367,22 +370,28 @@ static void run_comments(const Case& c) {
 
 // ---------------------------------------------------------------- skip_*
 
-// case: s=[text], n=[offsets...]; each offset is used with the std::string overloads when <= size and with the
-// C-string overloads when <= strlen
+// case: s=[text], n=[offsets...]; every offset is used with the std::string overloads (an offset beyond the length is a
+// valid argument there: the plain definition "advance while offset < size and the character matches" has nothing to
+// advance over and returns the offset unchanged; a skip never moves the cursor backwards) and with the C-string
+// overloads only when <= strlen (beyond the terminator the C-string overloads have no defined behaviour)
 static void run_skip(const Case& c) {
   const string& s = c.str(0);
   size_t clen = strlen(s.c_str());
+  bool any_past_end = false;
   for (size_t k = 0; k < c.n.size(); k++) {
     size_t off = c.u(k);
-    if (off <= s.size()) {
+    {
+      const char* where = (off <= s.size()) ? "string" : "string-offset-past-end";
+      any_past_end |= (off > s.size());
       size_t w = off, nw = off;
       while (w < s.size() && is_ws(s[w])) w++;
       while (nw < s.size() && !is_ws(s[nw])) nw++;
       size_t word = nw;
       while (word < s.size() && is_ws(s[word])) word++;
-      VCHECK(phosg::skip_whitespace(s, off) == w, "skip_whitespace:string", "skip_whitespace(", hex(s), ", ", off, ") == ", phosg::skip_whitespace(s, off), " expected ", w);
-      VCHECK(phosg::skip_non_whitespace(s, off) == nw, "skip_non_whitespace:string", "skip_non_whitespace(", hex(s), ", ", off, ") == ", phosg::skip_non_whitespace(s, off), " expected ", nw);
-      VCHECK(phosg::skip_word(s, off) == word, "skip_word:string", "skip_word(", hex(s), ", ", off, ") == ", phosg::skip_word(s, off), " expected ", word);
+      size_t gw = phosg::skip_whitespace(s, off), gnw = phosg::skip_non_whitespace(s, off), gword = phosg::skip_word(s, off);
+      VCHECK(gw == w, cat("skip_whitespace:", where), "skip_whitespace(", hex(s), " [", s.size(), " bytes], ", off, ") == ", gw, " expected ", w);
+      VCHECK(gnw == nw, cat("skip_non_whitespace:", where), "skip_non_whitespace(", hex(s), " [", s.size(), " bytes], ", off, ") == ", gnw, " expected ", nw);
+      VCHECK(gword == word, cat("skip_word:", where), "skip_word(", hex(s), " [", s.size(), " bytes], ", off, ") == ", gword, " expected ", word);
     }
     if (off <= clen) {
       // exactly-sized heap copy: reading past the terminator is an ASan error
@@ -403,6 +412,7 @@ static void run_skip(const Case& c) {
   bool ws = false;
   for (char ch : s) ws |= is_ws(ch);
   if (ws && two_different_bytes(s) && !c.n.empty()) ctx().nontrivial_case();
+  ctx().cls(any_past_end ? "skip:some-offset-past-end" : "skip:offsets-within-string");
 }
 
 // ---------------------------------------------------------------- split_args
@@ -530,15 +540,44 @@ static wstring ref_wprintf(size_t cap, const wchar_t* fmt, ...) {
 
 static string cstr_of(const string& s) { return string(s.c_str()); }
 
-// case: n=[format id, numeric args...], s=[string args...]
+// The printf helpers are functions of (format, arguments) only: the value errno happens to have when they are called
+// (left behind by whatever the thread did before) is not an input. A case carries that ambient value: n[0] = format id
+// + 256 * errno-on-entry (0 in cases saved before this was added).
+static const vector<int>& ambient_errnos() {
+  static const vector<int> v = {0, EILSEQ, EOVERFLOW, ENOMEM, EINVAL, ERANGE, EINTR, EAGAIN, E2BIG, EBADF};
+  return v;
+}
+static string errno_name(int e) {
+  switch (e) {
+    case 0: return "0";
+    case EILSEQ: return "EILSEQ";
+    case EOVERFLOW: return "EOVERFLOW";
+    case ENOMEM: return "ENOMEM";
+    case EINVAL: return "EINVAL";
+    case ERANGE: return "ERANGE";
+    case EINTR: return "EINTR";
+    case EAGAIN: return "EAGAIN";
+    case E2BIG: return "E2BIG";
+    case EBADF: return "EBADF";
+    default: return cat(e);
+  }
+}
+
+// case: n=[format id + 256 * errno on entry, numeric args...], s=[string args...]
 static void run_printf(const Case& c) {
-  uint64_t id = c.u(0);
-  string got, exp;
+  uint64_t id = c.u(0) & 0xFF;
+  int errno_in = static_cast<int>((c.u(0) >> 8) & 0xFFFF);
+  string got, exp, threw;
   Watchdog wd(30);
-#define BOTH(...)                          \
-  do {                                     \
-    got = phosg::string_printf(__VA_ARGS__); \
-    exp = ref_printf(__VA_ARGS__);         \
+#define BOTH(...)                              \
+  do {                                         \
+    exp = ref_printf(__VA_ARGS__);             \
+    try {                                      \
+      errno = errno_in;                        \
+      got = phosg::string_printf(__VA_ARGS__); \
+    } catch (const std::exception& ex) {       \
+      threw = cat(" ", ex.what());             \
+    }                                          \
   } while (0)
   switch (id) {
     case 0: {
@@ -592,23 +631,33 @@ static void run_printf(const Case& c) {
     default: throw std::logic_error("bad printf format id");
   }
 #undef BOTH
-  VCHECK(got.size() == exp.size(), cat("string_printf-length:fmt", id), "string_printf result has ", got.size(), " bytes, vsnprintf ", exp.size());
-  VCHECK(got == exp, cat("string_printf-value:fmt", id), "string_printf result differs from vsnprintf: ", hex(got, 40), " vs ", hex(exp, 40));
+  const char* amb = errno_in ? ":ambient-errno-nonzero" : "";
+  VCHECK(threw.empty(), cat("string_printf-throws-on-valid-arguments:fmt", id, amb), "string_printf threw:", threw, " (errno on entry ", errno_name(errno_in), ", expected a result of ", exp.size(), " bytes)");
+  VCHECK(got.size() == exp.size(), cat("string_printf-length:fmt", id, amb), "string_printf result has ", got.size(), " bytes, vsnprintf ", exp.size(), " (errno on entry ", errno_name(errno_in), ")");
+  VCHECK(got == exp, cat("string_printf-value:fmt", id, amb), "string_printf result differs from vsnprintf: ", hex(got, 40), " vs ", hex(exp, 40), " (errno on entry ", errno_name(errno_in), ")");
   if (exp.size() > 8 || id == 4) ctx().nontrivial_case();
   ctx().cls(exp.size() <= 1024 ? "printf:result<=1KiB" : (exp.size() <= 65536 ? "printf:result<=64KiB" : "printf:result>64KiB"));
+  ctx().cls(errno_in ? "printf:errno-on-entry-nonzero" : "printf:errno-on-entry-0");
 }
 
-// case: n=[format id, numeric args...], s=[wide string args, 4 bytes LE per unit]
+// case: n=[format id + 256 * errno on entry, numeric args...], s=[wide string args, 4 bytes LE per unit]
 static void run_wprintf(const Case& c) {
-  uint64_t id = c.u(0);
+  uint64_t id = c.u(0) & 0xFF;
+  int errno_in = static_cast<int>((c.u(0) >> 8) & 0xFFFF);
   wstring got, exp;
+  string threw;
   size_t fmt_len = 0;
   Watchdog wd(30);
-#define WBOTH(cap, fmt, ...)                        \
-  do {                                              \
-    fmt_len = wcslen(fmt);                          \
-    exp = ref_wprintf((cap), fmt, __VA_ARGS__);     \
-    got = phosg::wstring_printf(fmt, __VA_ARGS__);  \
+#define WBOTH(cap, fmt, ...)                         \
+  do {                                               \
+    fmt_len = wcslen(fmt);                           \
+    exp = ref_wprintf((cap), fmt, __VA_ARGS__);      \
+    try {                                            \
+      errno = errno_in;                              \
+      got = phosg::wstring_printf(fmt, __VA_ARGS__); \
+    } catch (const std::exception& ex) {             \
+      threw = cat(" ", ex.what());                   \
+    }                                                \
   } while (0)
   auto wstr_arg = [&](size_t k) {
     wstring w = decode_w(c.str(k));
@@ -644,10 +693,14 @@ static void run_wprintf(const Case& c) {
     default: throw std::logic_error("bad wprintf format id");
   }
 #undef WBOTH
-  VCHECK(got.size() == exp.size(), cat("wstring_printf-length:", exp.size() > 2 * fmt_len ? "result-longer-than-first-buffer" : "result-fits-first-buffer"), "wstring_printf (format #", id, ") returned ", got.size(), " characters, vswprintf ", exp.size());
-  VCHECK(got == exp, cat("wstring_printf-value:", exp.size() > 2 * fmt_len ? "result-longer-than-first-buffer" : "result-fits-first-buffer"), "wstring_printf (format #", id, ") differs from vswprintf: ", hex(encode_w(got), 40), " vs ", hex(encode_w(exp), 40));
+  const char* amb = errno_in ? ":ambient-errno-nonzero" : "";
+  const char* fits = exp.size() > 2 * fmt_len ? "result-longer-than-first-buffer" : "result-fits-first-buffer";
+  VCHECK(threw.empty(), cat("wstring_printf-throws-on-valid-arguments:", fits, amb), "wstring_printf (format #", id, ") threw:", threw, " (errno on entry ", errno_name(errno_in), ", expected a result of ", exp.size(), " characters)");
+  VCHECK(got.size() == exp.size(), cat("wstring_printf-length:", fits, amb), "wstring_printf (format #", id, ") returned ", got.size(), " characters, vswprintf ", exp.size(), " (errno on entry ", errno_name(errno_in), ")");
+  VCHECK(got == exp, cat("wstring_printf-value:", fits, amb), "wstring_printf (format #", id, ") differs from vswprintf: ", hex(encode_w(got), 40), " vs ", hex(encode_w(exp), 40), " (errno on entry ", errno_name(errno_in), ")");
   if (exp.size() > 2 * fmt_len) ctx().nontrivial_case();
   ctx().cls(exp.size() > 2 * fmt_len ? "wprintf:result-longer-than-2x-format" : (exp.size() == 2 * fmt_len || exp.size() + 1 == 2 * fmt_len ? "wprintf:result-at-first-buffer-edge" : "wprintf:result-shorter"));
+  ctx().cls(errno_in ? "wprintf:errno-on-entry-nonzero" : "wprintf:errno-on-entry-0");
 }
 
 // ---------------------------------------------------------------- generators
@@ -703,9 +756,120 @@ static Case gen_wsplit() {
   return Case("wsplit").S(encode_w(w)).N(d).N(m);
 }
 
+static const char kOpeners[4] = {'(', '[', '{', '<'};
+static const char kClosers[4] = {')', ']', '}', '>'};
+
+// Deep nests: `depth` bracket levels whose kinds follow a pattern (all random / one kind outside, another inside / two
+// kinds alternating / a single kind), with delimiters, ordinary characters, closers of another kind (ordinary characters
+// where they are not the expected closer), backslashes, short quoted strings and small balanced groups between the
+// levels on the way in and on the way out; balanced by construction (for non-meta delimiters), then possibly damaged.
+// The per-level choices come from one expanded seed (a deep nest would otherwise cost thousands of draws).
+static string gen_deep_nest(char d) {
+  const size_t maxdepth = ctx().thorough() ? 1200 : 160;
+  size_t depth;
+  switch (vg::below(4)) {
+    case 0: depth = 1 + vg::scaled(maxdepth); break;
+    case 1: depth = vg::pick<size_t>({7, 8, 9, 15, 16, 17, 31, 32, 33, 34, 63, 64, 65, 66, 127, 128, 129, 130, 255, 256, 257}); break; // around powers of two
+    default: depth = 1 + vg::below(maxdepth); break;
+  }
+  if (depth > maxdepth) depth = maxdepth;
+  unsigned pattern = vg::below(4);
+  unsigned kind_a = vg::below(4), kind_b = vg::below(4);
+  size_t outer_levels = 1 + vg::below(std::min<size_t>(depth, 4));
+  unsigned density = vg::pick<unsigned>({0, 8, 40, 100}); // filler probability out of 256 per position
+  string rnd = vg::expand(vg::u64(), 8 * depth + 64);
+  size_t ri = 0;
+  auto nxt = [&]() -> unsigned { return static_cast<unsigned char>(rnd[ri++ % rnd.size()]); };
+  string s, closers;
+  auto filler = [&]() {
+    char expected = closers.empty() ? 0 : closers.back();
+    switch (nxt() % 8) {
+      case 0:
+      case 1: s += d; break;
+      case 2: s += 'a'; break;
+      case 3: {
+        unsigned ci = nxt() % 4;
+        if (kClosers[ci] == expected) ci = (ci + 1) % 4;
+        s += kClosers[ci];
+        break;
+      }
+      case 4: s += '\\'; break;
+      case 5: {
+        char q = (nxt() & 1) ? '"' : '\'';
+        s += q;
+        for (unsigned n = nxt() % 4; n > 0; n--) {
+          static const char inside[] = {'(', ']', '{', '>', 'b', ',', ' '};
+          unsigned r = nxt() % 10;
+          if (r < 7) s += inside[r];
+          else if (r == 7) s += d;
+          else {
+            s += '\\';
+            s += (r == 8) ? q : '\\';
+          }
+        }
+        s += q;
+        break;
+      }
+      case 6: {
+        unsigned k = nxt() % 4;
+        s += kOpeners[k];
+        s += d;
+        s += kClosers[k];
+        break;
+      }
+      default: {
+        char ch = static_cast<char>(nxt());
+        if (ch != 0 && strchr("()[]{}<>'\"", ch)) ch = 'c';
+        s += ch;
+        break;
+      }
+    }
+  };
+  auto maybe_fill = [&]() {
+    while (nxt() < density) filler();
+  };
+  if (nxt() & 1) {
+    s += 'x';
+    s += d;
+  }
+  maybe_fill();
+  for (size_t lv = 0; lv < depth; lv++) {
+    unsigned k;
+    switch (pattern) {
+      case 0: k = nxt() % 4; break;
+      case 1: k = (lv < outer_levels) ? kind_a : kind_b; break;
+      case 2: k = (lv & 1) ? kind_b : kind_a; break;
+      default: k = kind_a; break;
+    }
+    s += kOpeners[k];
+    closers += kClosers[k];
+    maybe_fill();
+  }
+  if (nxt() & 1) filler();
+  while (!closers.empty()) {
+    s += closers.back();
+    closers.pop_back();
+    maybe_fill();
+  }
+  if (nxt() & 1) {
+    s += d;
+    s += 'y';
+  }
+  if (vg::chance(1, 4) && !s.empty()) {
+    size_t at = vg::below(s.size());
+    switch (vg::below(3)) {
+      case 0: s.erase(at, 1); break;
+      case 1: s[at] = kClosers[vg::below(4)]; break;
+      default: s.resize(at); break;
+    }
+  }
+  return s;
+}
+
 static Case gen_split_context() {
   static const string meta = "()[]{}<>'\"\\";
   char d = static_cast<char>(vg::chance(3, 4) ? vg::pick<int>({',', ' ', ';', 'a'}) : (vg::coin() ? meta[vg::below(meta.size())] : static_cast<char>(vg::below(256))));
+  if (vg::chance(1, 5)) return Case("split_context").S(gen_deep_nest(d)).N(static_cast<unsigned char>(d)).N(vg::below(14));
   size_t len = gen_len(4096);
   string s;
   if (vg::coin()) {
@@ -829,7 +993,15 @@ static Case gen_skip() {
   Case c("skip");
   c.S(s);
   size_t k = 1 + vg::below(12);
-  for (size_t i = 0; i < k; i++) c.N(vg::chance(1, 5) ? s.size() - vg::below(std::min<size_t>(s.size(), 2) + 1) + (s.size() ? 0 : 0) : vg::below(s.size() + 1));
+  for (size_t i = 0; i < k; i++) {
+    switch (vg::below(10)) {
+      case 0:
+      case 1: c.N(s.size() - vg::below(std::min<size_t>(s.size(), 2) + 1)); break; // at / just before the end
+      case 2: c.N(s.size() + 1 + vg::below(8)); break; // a little beyond the end (std::string overloads only)
+      case 3: c.N(vg::chance(1, 2) ? s.size() + 1 + vg::scaled(5000) : std::max<uint64_t>(vg::interesting64(), s.size() + 1)); break; // far beyond
+      default: c.N(vg::below(s.size() + 1)); break;
+    }
+  }
   return c;
 }
 
@@ -892,7 +1064,7 @@ static Case gen_printf() {
   const size_t kMax = ctx().thorough() ? (1u << 20) : (1u << 17);
   Case c("printf");
   uint64_t id = vg::below(8);
-  c.N(id);
+  c.N(id + 256 * static_cast<uint64_t>(vg::coin() ? 0 : vg::pick(ambient_errnos())));
   auto width = [&]() -> int64_t {
     int64_t w = static_cast<int64_t>(vg::chance(1, 3) ? vg::scaled(kMax) : vg::scaled(300));
     return vg::chance(1, 4) ? -w : w;
@@ -936,7 +1108,7 @@ static Case gen_wprintf() {
   const size_t kMax = ctx().thorough() ? (1u << 18) : (1u << 15); // wide units: 2^18 units = 1 MiB
   Case c("wprintf");
   uint64_t id = vg::below(7);
-  c.N(id);
+  c.N(id + 256 * static_cast<uint64_t>(vg::coin() ? 0 : vg::pick(ambient_errnos())));
   auto value = [&]() -> int64_t {
     return static_cast<int32_t>(vg::coin() ? vg::interesting64() : vg::pick<uint64_t>({0, 5, 12, 123, 1234, 12345, 123456, 1234567, 0x7FFFFFFF, 0x80000000ULL}));
   };
@@ -1012,7 +1184,33 @@ static void enum_split_context(Enum& e) {
       return !e.stop;
     });
   }
-  e.complete(cat("every string of length <= ", maxlen, " over {, ( ) [ ] \" ' \\ a} with delimiter ','; length <= ", maxlen2, " over {; { } < > \" \\ b} with ';' and over {, ( ) \" \\ a} with delimiters ) ( \" \\; max_splits 0..min(10, top-level delimiters + 1)"));
+  // nesting depth as the enumerated dimension: every depth x every (outer kind, inner kind) x 5 shapes
+  size_t maxdepth = e.thorough() ? 300 : 80;
+  for (size_t depth = 1; depth <= maxdepth && !e.stop; depth++) {
+    for (unsigned o = 0; o < 4; o++) {
+      for (unsigned k = 0; k < 4; k++) {
+        if (!e.mine(idx++)) continue;
+        string in_open(depth - 1, kOpeners[k]), in_close(depth - 1, kClosers[k]);
+        string alt_open, alt_close;
+        for (size_t lv = 0; lv < depth; lv++) {
+          alt_open += kOpeners[(lv & 1) ? k : o];
+          alt_close.insert(alt_close.begin(), kClosers[(lv & 1) ? k : o]);
+        }
+        char O = kOpeners[o], C = kClosers[o], other = kClosers[(o + 1) % 4];
+        // delimiters at the deepest level, at level 1 and at top level
+        e.exec(Case("split_context").S(string("x,") + O + in_open + ",a" + in_close + ",b" + C + ",y").N(',').N(0));
+        // a closer of another kind at level 1 is an ordinary character there
+        e.exec(Case("split_context").S(string() + O + in_open + in_close + other + ",r" + C + ",z").N(',').N(0));
+        // the outermost bracket closed by the wrong kind: unbalanced
+        e.exec(Case("split_context").S(string() + O + in_open + in_close + other + ",z").N(',').N(0));
+        // two kinds alternating
+        e.exec(Case("split_context").S(alt_open + "," + alt_close + ",q").N(',').N(0));
+        // a quoted string at the deepest level
+        e.exec(Case("split_context").S(string("p,") + O + in_open + "\"" + C + ",\\\"" + "\"" + in_close + C).N(',').N(0));
+      }
+    }
+  }
+  e.complete(cat("every string of length <= ", maxlen, " over {, ( ) [ ] \" ' \\ a} with delimiter ','; nesting depths 1..", maxdepth, " x 16 (outer, inner) bracket kinds x 5 shapes; length <= ", maxlen2, " over {; { } < > \" \\ b} with ';' and over {, ( ) \" \\ a} with delimiters ) ( \" \\; max_splits 0..min(10, top-level delimiters + 1)"));
 }
 
 static void enum_affix(Enum& e) {
@@ -1082,12 +1280,13 @@ static void enum_skip(Enum& e) {
     if (e.mine(idx++)) {
       Case c("skip");
       c.S(s);
-      for (size_t off = 0; off <= s.size(); off++) c.N(off);
+      for (size_t off = 0; off <= s.size() + 3; off++) c.N(off);
+      c.N(SIZE_MAX);
       e.exec(c);
     }
     return !e.stop;
   });
-  e.complete(cat("every string of length <= ", maxlen, " over {space, tab, CR, LF, NUL, a} x every offset 0..length, std::string and C-string overloads"));
+  e.complete(cat("every string of length <= ", maxlen, " over {space, tab, CR, LF, NUL, a} x every offset 0..length (std::string and C-string overloads) and length+1..length+3, SIZE_MAX (std::string overloads)"));
 }
 
 static void enum_split_args(Enum& e) {
@@ -1102,26 +1301,50 @@ static void enum_split_args(Enum& e) {
 
 static void enum_wprintf(Enum& e) {
   uint64_t idx = 0;
-  // results of every length 1..12 against the 4-unit first buffer of L"%d", and around the edges of the others
-  int64_t v = 1;
-  for (int digits = 1; digits <= 10 && !e.stop; digits++) {
-    for (int64_t val : {v, -v}) {
-      if (val < INT32_MIN || val > INT32_MAX) continue;
-      if (e.mine(idx++)) e.exec(Case("wprintf").N(0).I(val));
-      if (e.mine(idx++)) e.exec(Case("wprintf").N(5).I(val));
+  // results of every length 1..12 against the 4-unit first buffer of L"%d", and around the edges of the others;
+  // everything once per ambient errno value
+  for (int err : ambient_errnos()) {
+    auto F = [&](uint64_t id) { return id + 256 * static_cast<uint64_t>(err); };
+    int64_t v = 1;
+    for (int digits = 1; digits <= 10 && !e.stop; digits++) {
+      for (int64_t val : {v, -v}) {
+        if (val < INT32_MIN || val > INT32_MAX) continue;
+        if (e.mine(idx++)) e.exec(Case("wprintf").N(F(0)).I(val));
+        if (e.mine(idx++)) e.exec(Case("wprintf").N(F(5)).I(val));
+      }
+      v = v * 10 + (digits + 1) % 10;
     }
-    v = v * 10 + (digits + 1) % 10;
+    for (int64_t w = -40; w <= 40 && !e.stop; w++)
+      if (e.mine(idx++)) e.exec(Case("wprintf").N(F(2)).I(w).I(7));
+    for (size_t len = 0; len <= 130 && !e.stop; len++) {
+      wstring a(len, L'q');
+      if (e.mine(idx++)) e.exec(Case("wprintf").N(F(1)).S(encode_w(a)));
+      if (e.mine(idx++)) e.exec(Case("wprintf").N(F(6)).S(encode_w(a)));
+      if (e.mine(idx++)) e.exec(Case("wprintf").N(F(3)).S(encode_w(a)).S(encode_w(a.substr(0, len / 3))).I(static_cast<int64_t>(len) * 1000));
+    }
+    if (e.mine(idx++)) e.exec(Case("wprintf").N(F(4)));
   }
-  for (int64_t w = -40; w <= 40 && !e.stop; w++)
-    if (e.mine(idx++)) e.exec(Case("wprintf").N(2).I(w).I(7));
-  for (size_t len = 0; len <= 130 && !e.stop; len++) {
-    wstring a(len, L'q');
-    if (e.mine(idx++)) e.exec(Case("wprintf").N(1).S(encode_w(a)));
-    if (e.mine(idx++)) e.exec(Case("wprintf").N(6).S(encode_w(a)));
-    if (e.mine(idx++)) e.exec(Case("wprintf").N(3).S(encode_w(a)).S(encode_w(a.substr(0, len / 3))).I(static_cast<int64_t>(len) * 1000));
+  e.complete(cat("L\"%d\" with 1..10 digit values of both signs, L\"%*d\" widths -40..40, L\"%ls\" arguments of every length 0..130 (all result lengths around 2x the format length), each with ", ambient_errnos().size(), " values of errno on entry (0, EILSEQ, EOVERFLOW, ENOMEM, EINVAL, ERANGE, EINTR, EAGAIN, E2BIG, EBADF)"));
+}
+
+// string_printf: results around typical first-buffer sizes, once per ambient errno value
+static void enum_printf(Enum& e) {
+  uint64_t idx = 0;
+  for (int err : ambient_errnos()) {
+    auto F = [&](uint64_t id) { return id + 256 * static_cast<uint64_t>(err); };
+    for (size_t len : {0, 1, 2, 7, 8, 9, 15, 16, 17, 31, 32, 33, 63, 64, 65, 127, 128, 129, 255, 256, 257, 511, 512, 513, 1023, 1024, 1025, 4095, 4096, 4097}) {
+      if (e.stop) break;
+      string a(len, 'q');
+      if (e.mine(idx++)) e.exec(Case("printf").N(F(0)).S(a));
+      if (e.mine(idx++)) e.exec(Case("printf").N(F(1)).I(static_cast<int64_t>(len)).I(-7));
+      if (e.mine(idx++)) e.exec(Case("printf").N(F(1)).I(-static_cast<int64_t>(len)).I(7));
+      if (e.mine(idx++)) e.exec(Case("printf").N(F(2)).I(static_cast<int64_t>(len)).D(0.1));
+      if (e.mine(idx++)) e.exec(Case("printf").N(F(3)).S(a).S(a.substr(0, len / 3)).I(static_cast<int64_t>(len)));
+    }
+    if (e.mine(idx++)) e.exec(Case("printf").N(F(6)));
+    if (e.mine(idx++)) e.exec(Case("printf").N(F(4)).N('a').N(0).N('b'));
   }
-  if (e.mine(idx++)) e.exec(Case("wprintf").N(4));
-  e.complete("L\"%d\" with 1..10 digit values of both signs, L\"%*d\" widths -40..40, L\"%ls\" arguments of every length 0..130 (all result lengths around 2x the format length)");
+  e.complete(cat("\"%s\", \"%*d\", \"%.*f\", \"%s=%d:%s\" with argument lengths / widths / precisions 0,1,2 and 2^k-1, 2^k, 2^k+1 for k=3..12, the empty format and \"%c%c|%c\" with a NUL character, each with ", ambient_errnos().size(), " values of errno on entry"));
 }
 
 int main(int argc, char** argv) {
@@ -1136,7 +1359,7 @@ int main(int argc, char** argv) {
   checks.push_back({"comments", run_comments, gen_comments, 80000, 500000, 100, enum_comments});
   checks.push_back({"skip", run_skip, gen_skip, 80000, 500000, 100, enum_skip});
   checks.push_back({"split_args", run_split_args, gen_split_args, 120000, 600000, 100, enum_split_args});
-  checks.push_back({"printf", run_printf, gen_printf, 16000, 100000, 100, nullptr});
+  checks.push_back({"printf", run_printf, gen_printf, 16000, 100000, 100, enum_printf});
   checks.push_back({"wprintf", run_wprintf, gen_wprintf, 16000, 100000, 100, enum_wprintf});
   // every case runs under a watchdog: a non-terminating helper kills the shard and the journal names the case
   for (auto& sc : checks) {
